@@ -21,7 +21,7 @@ PROPS = {
                  'models of File / BorrowedFd / HandleData / InodeData / CString / ManuallyDrop (identity) in vx/units/ptsize.py'],
     ),
     'C05': dict(
-        vx_units=['ptops', 'ptstatx'], kx=[], rx=['pt'],
+        vx_units=['ptops', 'ptstatx', 'fhandle'], kx=[], rx=['pt'],
         design_ref='DESIGN.md A.4 / A.6 (D18, D19)',
         not_covered=[
             'the kernel\'s semantics of every system call (what the call yields) and the equality of the exported tree with the tree produced by applying the same calls directly, over histories: only WHICH call is made, on which descriptor, with which arguments, how often, and what is done with its result is decided (bounded differential check: RX group pt)',
@@ -186,10 +186,10 @@ PROPS = {
                  'rule R23: the ghost dirty-log parameter threaded through the real functions is erased by Verus (no run-time meaning); ABSTRACT of copy_nonoverlapping by vx_copy_to_guest'],
     ),
     'C15': dict(
-        vx_units=['handles'], kx=[], rx=['pt'],
+        vx_units=['handles', 'fhandle'], kx=[], rx=['pt'],
         design_ref='DESIGN.md A.4',
         not_covered=[
-            'descriptor accounting itself (when a File / Arc<HandleData> / MountFd is dropped and closed): Arc/Weak drop and raw fds are outside the model; MountFds (finding D14) and file_handle.rs are not under contract',
+            'descriptor accounting of the handle table itself (when a File / Arc<HandleData> is dropped and closed): Arc drop and raw fds of HandleData are outside the model; for file handles and mount descriptors it IS modelled (unit fhandle: a ghost set of open descriptors, explicit scope-exit drops of File values, the drop glue of Arc<MountFd> spelled out) under the assumptions listed there - Weak::upgrade succeeds iff a strong reference exists, one MountFds table, one interfering get() for the same mount id; get_mount_root (mountinfo parsing) is contract-only',
             'read/write/flush/lseek/fallocate/setattr/readdir/readdirplus/do_readdir: that they resolve their handle through get_data/get_dirdata/HandleMap::get with the (handle, inode) of the request is by reading only; the textual writers scan guarantees only that they do not MODIFY the table',
             'reference accounting of inodes across lookups/forgets (C08) beyond the error paths of create; the inode-handle configuration variants of do_lookup',
             'interleavings of concurrent requests (sequential model of RwLock/Mutex/atomics)',
